@@ -22,8 +22,10 @@ def install(w):
                         "implies(NoObj(type_) and not is_undefined(result), Conf(result, type_))",
                         "implies(NoObj(type_) and not is_none(input_value) and not is_undefined(input_value),"
                         " not is_none(result))"],
-               # a user supplied out_type may raise (A5)
-               raises=["Exception"], modifies=[], locals={"coerced_list": ("list", "dyn")},
+               # a user supplied out_type may raise (A5) - and nothing else: whatever the coerce function
+               # of a leaf type raises is turned into "invalid" (C01: a custom scalar cannot crash a request)
+               raises=["Exception"], on_raise={"Exception": ["not NoObj(type_)"]},
+               modifies=[], locals={"coerced_list": ("list", "dyn")},
                valid_schema=True, decreases_when="not kind_is(type_, 'INPUT_OBJECT')",
                call_pre={
                    "coerce_input_value#1": ["arg_type_ is of(type_)", "same(arg_input_value, input_value)"],
@@ -41,7 +43,7 @@ def install(w):
                               " RequiredField(field))"],
                           "step_post": [
                               "implies(is_undefined(field_value), not RequiredField(field))"]}},
-               props={"C15", "C13", "C02"})
+               props={"C15", "C13", "C02", "C01"})
 
     # ---- validation side: ghost counter 'errs' of on_error calls -----------------------------------
     w.alias("Path", "graphql.pyutils.path.Path")
